@@ -408,9 +408,35 @@ def target_names():
         O.load("circuit/circuit", ["Circuit.get_element_name"], ns)
         got = []
         top = type("Top", (), {"get_element_name": lambda s, element=None, identifiers=None: got.append((element, identifiers)) or "NAME"})()
-        cir = type("C", (), {"_elements": top})()
-        ids = {a: 3}
-        sess.check("post", [], _z3.BoolVal(ns["get_element_name"](cir, a, ids) == "NAME" and got == [(a, ids)]), 0, label="Circuit.get_element_name delegates to the top-level connection with both arguments")
+
+        # the circuit around it, as far as its other methods are specified: get_elements(recursive=True) lists the elements of the
+        # (nested) connections and does NOT descend into the sub-circuits of container elements (traversal contract), while
+        # membership and identifiers do.  `a` is nested inside a container element, `b` sits directly in a connection: both are
+        # part of the circuit and both have a name
+        class Cir:
+            _elements = top
+
+            def get_elements(self, recursive=True):
+                return [b]
+
+            def get_connections(self, recursive=True):
+                return [top]
+
+            def generate_element_identifiers(self, running=False):
+                return {a: 2, b: 1}
+
+            def __contains__(self, e):
+                return e in (a, b)
+        ns.update(Element=El, Connection=type(top), isinstance=isinstance)
+        for who, where in ((a, "nested inside a container element"), (b, "directly in a connection")):
+            for ids in ({a: 3, b: 4}, None):
+                got.clear()
+                try:
+                    r = ns["get_element_name"](Cir(), who, ids)
+                except (ValueError, TypeError, KeyError) as e:
+                    r = f"{type(e).__name__}: {e}"
+                sess.check("post", [], _z3.BoolVal(r == "NAME" and got == [(who, ids)]), 0,
+                           label=f"Circuit.get_element_name delegates to the top-level connection with both arguments [element {where}, identifiers {'given' if ids else 'omitted'}]")
     return ("circuit/base:Element.get_name / Connection.get_element_name / Circuit.get_element_name", "circuit/base", "Connection.get_element_name", run)
 
 
